@@ -217,8 +217,8 @@ func execC05E2EInner(c c05Case) *ev.Failure {
 			srv.Stop()
 			<-served
 		}()
-		time.Sleep(2 * time.Millisecond)
-		conn.Flush()
+		// the server has subscribed once Serve is under way (2 ms is not enough on a busy machine)
+		awaitSubscribed(conn)
 		raw.PublishRequest(subj, "c05.hostile.reply", data)
 		raw.Flush()
 		ccon, _ := natsConnect()
